@@ -422,6 +422,8 @@ def gen_c13(rng, n):
 
 # ---- C05 / C06 / C17 ----
 def gen_find_zones(rng, nzones, findn=False):
+    if not findn:
+        yield from gen_range_end_finds(rng, max(10, nzones // 10))
     for t in K2_RULES + K1_RULES:
         yield from gen_rule_zone_session(rng, named_rule(t), with_table=False, do_find=True, do_findn=findn, nprobe=60)
     for i in range(nzones // 2):
@@ -433,7 +435,47 @@ def gen_find_zones(rng, nzones, findn=False):
 
 
 # ---- C14 ----
+def gen_range_end_finds(rng, n):
+    """searches at the ends of the supported range, in fixed-offset zones and zones whose last type has a non-zero offset"""
+    for _ in range(n):
+        off = rng.choice([1, -1, 3600, -3600, 86399, -86399, I32MAX, I32MIN + 1, rng.randint(-10**6, 10**6)])
+        ty = {"off": off, "dst": 0, "des": B("FIX")}
+        kind = rng.random()
+        if kind < 0.5:
+            z = {"tr": [], "ty": [ty], "lp": [], "rule": {"k": "none"}}
+        elif kind < 0.75:
+            z = {"tr": [], "ty": [ty], "lp": [], "rule": {"k": "fixed", "t": dict(ty)}}
+        else:
+            z = {"tr": [[0, 0]], "ty": [ty], "lp": [], "rule": {"k": "fixed", "t": dict(ty)}}
+        yield zone_event(z)
+        for end in (MINT, MAXT):
+            for _ in range(4):
+                L = end + rng.choice([0, 1, -1, off, off + 1, off - 1, -off, 2 * off, rng.randint(-abs(off) - 5, abs(off) + 5)])
+                L = max(MINT, min(MAXT, L))
+                yield {"op": "find", "a": fields_of_local(L, rng.choice([0, 999999999]))}
+        yield {"op": "find", "a": {"y": I32MAX, "mo": 12, "d": 31, "h": 23, "mi": 59, "s": 60, "ns": 0}}
+
+
+def gen_ns_validation(rng, n):
+    """nanosecond arguments around 1e9 wherever fields are validated (C16)"""
+    z = gen_table_zone(rng, nmax=4)
+    yield zone_event(z)
+    for i in range(n):
+        f = rand_fields(rng, 1.0)
+        f["ns"] = rng.choice([999999999, 1000000000, 1000000001, 2147483647, 0])
+        k = i % 4
+        if k == 0:
+            f["via"] = rng.choice(["utc", "dt"]); yield {"op": "timegm", "a": f}
+        elif k == 1:
+            f["type"] = rand_type(rng); yield {"op": "newdt", "a": f}
+        elif k == 2:
+            f["y"] = rng.randint(1900, 2100); yield {"op": "find", "a": f}
+        else:
+            f["y"] = rng.randint(1900, 2100); f["n"] = rng.randint(0, 3); yield {"op": "findn", "a": f}
+
+
 def gen_c14(rng, n):
+    yield from gen_range_end_finds(rng, max(20, n // 200))
     z = gen_table_zone(rng, nmax=10)
     yield zone_event(z)
     for i in range(n):
